@@ -704,10 +704,47 @@ def _m5_build_expansion(ck: Check) -> None:
                   f"relies on the default expand without the motif-avoidance search", key=f"default of {pn} in {q}")
 
 
+def _m5_swallowed(ck: Check) -> None:
+    """An aggregating loop that asks for a node's data inside `try` and swallows the exception must not go on with the
+    iteration: the local that was to receive the data still holds the previous node's (or nothing)."""
+    for q in AGG:
+        fm = ck.prog.fm(SD_MOD, q)
+        f = fm.f
+        for t in own_walk(f.node):
+            if not isinstance(t, ast.Try):
+                continue
+            lps = [l for l in fm.cfg.enclosing_loops(fm.cfgn(t.body[0])) if isinstance(l, (ast.For, ast.While))] if t.body else []
+            if not lps:
+                continue
+            assigned = {y.id for st in t.body for y in ast.walk(st) if isinstance(y, ast.Name) and isinstance(y.ctx, ast.Store)}
+            if not assigned:
+                continue
+            # what the rest of the iteration reads
+            after = []
+            par = f.parents.get(t)
+            for fld in ("body", "orelse", "finalbody"):
+                b_ = getattr(par, fld, None)
+                if isinstance(b_, list) and t in b_:
+                    after = b_[b_.index(t) + 1:]
+            read_later = {y.id for st in after + t.orelse for y in ast.walk(st) if isinstance(y, ast.Name) and isinstance(y.ctx, ast.Load)}
+            probs = []
+            for h in t.handlers:
+                leaves = bool(h.body) and isinstance(h.body[-1], (ast.Continue, ast.Break, ast.Return, ast.Raise))
+                rebinds = {y.id for st in h.body for y in ast.walk(st) if isinstance(y, ast.Name) and isinstance(y.ctx, ast.Store)}
+                stale = (assigned & read_later) - rebinds
+                if not leaves and stale:
+                    probs.append(f"line {h.lineno}: the handler neither leaves the iteration nor gives {', '.join(sorted(stale))} a value: the "
+                                 f"rest of the loop body reports the previous node's data (or fails on the first node)")
+            if t.handlers:
+                ck.ob("M5", fm, t, not probs, "; ".join(probs) if probs else "a failed request ends the iteration for that node",
+                      key=f"swallowed request in {q.split('.')[1]}")
+
+
 def m5(ck: Check) -> None:
     prog = ck.prog
     _m5_columns(ck)
     _m5_build_expansion(ck)
+    _m5_swallowed(ck)
     for q, acc in AGG.items():
         fm = prog.fm(SD_MOD, q)
         f = fm.f
